@@ -37,6 +37,22 @@ def generate(rng, tier):
             cases.append(Case("md.ops", ops, meta={"nt": True}))
             cases.append(Case("md.ops", list(reversed(ops)) + ["13:%s" % enc("42")], meta={"nt": True}))
     cases.append(Case("db.iter", [], meta={"nt": True}))
+    # contents of the metadata files: what read_metadata returns is the whole file when it is UTF-8, however long it is and
+    # wherever its multi-byte characters fall (2-, 3- and 4-byte characters straddling 4096 / 8192 / 65536 at every
+    # alignment), and an error when it is not UTF-8 - also when the offending byte comes late
+    conts = []
+    for block in (4096, 8192, 65536):
+        for ch in ("\u00e9", "\u65e5", "\U0001F600"):
+            w = len(ch.encode("utf-8"))
+            for back in range(1, w):
+                conts.append(b"x" * (block - back) + ch.encode("utf-8") + b" tail\n")
+    conts += [("\u65e5" * 30000).encode("utf-8"), b"a" + ("\u00e9" * 40000).encode("utf-8"), b"y" * 70000, b"\xef\xbb\xbfbom\n", b"nul\x00inside\n", b"\n", b" ",
+              b"x" * 8191 + b"\xe9", b"x" * 8192 + b"\xff tail", b"ok\n\xc3", b"x" * 70000 + b"\xa0", b"\xe9", "caf\u00e9\n".encode("utf-8"), b"\xed\xa0\x80", b"\xf4\x90\x80\x80", b"\xc0\xaf"]
+    for i, c in enumerate(conts):
+        which = REQ[i % 3]
+        files = ",".join(enc(f) + ("=" + enc(c) if f == which else "") for f in REQ)
+        files2 = ",".join(enc(f) + "=" + enc(c) for f in REQ)
+        cases.append(Case("db.iter", ["d:%s:%s" % (enc(b"pkg-1.%d" % i), files), "d:%s:%s" % (enc(b"other-2.0"), files2)], meta={"nt": True, "content": True}))
     cases.append(Case("db.other", ["file"], meta={"nt": True}))
     cases.append(Case("db.other", ["missing"], meta={"nt": True}))
     for _ in range(n):
